@@ -3,6 +3,9 @@
 import json
 claimed = {
  "C01": ("KV reads vs ordered map with TTL: B+ tree single-step lemmas (symbolic keys, real Insert/Find/Range/All/PrefixScan) and symbolic write histories through the real Open/Update/View over the modelled file system", "§5 C01"),
+ "C02": ("sparse-mode KV reads vs ordered map with TTL: symbolic single-bucket histories through the real Update/View with segment rotations (on-disk B+ tree index files, root index, bucket metadata on the modelled file system)", "§5 C02"),
+ "C03": ("PrefixScan / PrefixSearchScan with symbolic offset and limit over symbolic keys with live, deleted and expired records against the paging model", "§5 C03"),
+ "C04": ("bucket isolation with adversarial (symbolic) bucket names and keys: a write to bucket A must not change any read of bucket B, for KV in all index modes and for list / set / sorted-set buckets", "§5 C04"),
  "C05": ("list single-step lemmas from arbitrary small states with fully symbolic 64-bit indexes and counts, against a Redis-style model", "§5 C05"),
  "C06": ("set single-step lemmas from arbitrary small states with symbolic members against a mathematical-set model", "§5 C06"),
  "C07": ("skip-list single-step lemmas with symbolic scores, keys and node levels: structural invariant plus every query against a (score,key)-ordered model", "§5 C07"),
@@ -12,7 +15,11 @@ claimed = {
  "C11": ("the C10 crash scenarios with SyncEnable under a power-loss model of the file system: at the crash every file independently keeps its content or reverts to its content at its last sync", "§5 C11"),
  "C12": ("differential no-effect check of failed (fn error, rollback, oversized entry at any position, injected write error), read-only and finished transactions, in process and after reopen", "§5 C12"),
  "C13": ("differential: a multi-operation write transaction against a twin database committing each operation on its own (return values and final observation)", "§5 C13"),
+ "C14": ("lock discipline (DESIGN §6): every API operation runs symbolically while every load/store of shared state (DB object graph, package variables, files) is checked against the lock held: writes need the write lock, reads a lock, no package variable is written under a per-database lock; lock balance and self-deadlock on every path. Schedules are not enumerated", "§6"),
+ "C17": ("the lock-discipline check of §6 with Merge as the operation (every access Merge performs outside its own write transaction is reported)", "§6"),
+ "C18": ("Backup: lock discipline of the copy (read lock held for the whole CopyDir) and differential: the copy opens and shows exactly the observation at backup time, not later writes", "§5 C18"),
  "C19": ("differential: one symbolic history on two databases that differ in RWMode, StartFileLoadingMode, SyncEnable or index mode; call results, observation and observation after reopen must agree (includes entries that exactly fill a segment)", "§5 C19"),
+ "C20": ("no-panic obligations: every exported Tx method and the DB methods with adversarial arguments (symbolic 64-bit indexes/counts/offsets/limits, boundary integers, NaN/Inf, nil/empty/separator keys, wrong/missing/empty buckets, invalid regexp, nil options), followed by Commit, on finished transactions, read-only transactions and closed databases; Open with arbitrary option values", "§5 C20"),
  "C21": ("encode/decode round trip for all field values, every single-bit flip and every truncation of stored entries, root-index records and bucket metadata (CRC as collision-free digest)", "§5 C21"),
  "C22": ("real Open over directories created in each index mode (fresh, written, merged) and reopened in each other mode: incompatible modes must be refused with the directory image unchanged, RAM modes interchangeable", "§5 C22"),
 }
